@@ -275,7 +275,12 @@ func decorate(r *core.Rand, rules []hsim.MRule) string {
 		if m.Sal != nil {
 			b.WriteString(kw("salience") + ws() + num(*m.Sal) + ws())
 		}
-		b.WriteString("{" + ws() + kw("when") + ws() + "F.B" + ws() + "==" + ws() + kw("true") + ws() + kw("then") + ws())
+		chain := ""
+		if r.Chance(1, 60) {
+			// a long flat chain of operands without a bracket: grammatical however long it is
+			chain = strings.Repeat(r.PickStr(" && F.B == true", " || F.B", " && F.B"), int(r.PickInt64(40, 270, 400))) + " "
+		}
+		b.WriteString("{" + ws() + kw("when") + ws() + "F.B" + ws() + "==" + ws() + kw("true") + chain + ws() + kw("then") + ws())
 		q := "\""
 		if r.Chance(1, 3) {
 			q = "'"
@@ -474,6 +479,11 @@ func lhScenario(prop string, seed uint64) *core.Scenario {
 			// the generator's own bookkeeping after a load is approximate: it only steers name choice
 			ex.Ops = append(ex.Ops, op)
 		}
+	}
+	for oi := range ex.Ops {
+		// applications keep one builder per library: two builds out of three go through it
+		// (derived, not drawn: the rest of the stream is unchanged)
+		ex.Ops[oi].FreshBuilder = core.Mix(seed, uint64(oi)+991)%3 == 0
 	}
 	sc := &core.Scenario{Property: prop, Sim: "H", Seed: seed}
 	hsim.SetLExtra(sc, ex)
